@@ -362,10 +362,17 @@ def gen_cases(ctx, n_elem, n_stmt, n_value, n_textelem=0):
     return cases
 
 
-def check(abbr, jsx, expected):
-    """The property oracle on the implementation: None or a description of the failure."""
+def check(abbr, jsx, expected, text_only=False):
+    """The property oracle on the implementation: None or a description of the failure.
+    text_only (C04): only the node's name and its text value are claimed, not its attribute list."""
     t = text_tree.impl_tree(abbr, None, None, jsx)
     want = ('ok', expected)
+    if text_only:
+        ok = t[0] == 'ok' and len(t[1]) == len(expected) and all(g[:2] == e[:2] for g, e in zip(t[1], expected))
+        if not ok:
+            return 'abbreviation tree of %r (jsx=%r) is %r, the written text gives name/value %r' % (
+                abbr, jsx, str(t)[:400], [e[:2] for e in expected]), t
+        return None, t
     if t != want:
         return 'abbreviation tree of %r (jsx=%r) is %r, the written mentions give %r' % (abbr, jsx, str(t)[:400], str(want)[:400]), t
     return None, t
@@ -378,7 +385,7 @@ def run_stream(ctx, prop, n_elem, n_stmt, n_value, kinds=None, n_textelem=0):
     tmodel = ctx.model('text')
     wires, impl = [], []
     for kind, abbr, jsx, exp in cases:
-        why, t = check(abbr, jsx, exp)
+        why, t = check(abbr, jsx, exp, text_only=(kind == 'textelem'))
         impl.append(t)
         ctx.count_eval()
         ctx.cover('%stext:%s' % (prop, kind.split(':')[0] if kind.startswith('corpus') else kind))
@@ -388,6 +395,7 @@ def run_stream(ctx, prop, n_elem, n_stmt, n_value, kinds=None, n_textelem=0):
         if why:
             ctx.property_failure('%stext:%s|jsx=%s' % (prop, abbr, jsx), '%s text level: %s' % (prop, why),
                                  {'component': 'text-tree', 'abbr': abbr, 'jsx': jsx, 'expected': to_json(exp),
+                                  'text_only': kind == 'textelem',
                                   'impl': repr(t)[:500], 'why': why})
         wires.append(text_tree.enc_case(abbr, None, None, jsx))
     dis = 0
@@ -406,7 +414,7 @@ def run_stream(ctx, prop, n_elem, n_stmt, n_value, kinds=None, n_textelem=0):
 
 def replay(rp):
     exp = from_json(rp['expected'])
-    why, t = check(rp['abbr'], bool(rp.get('jsx')), exp)
+    why, t = check(rp['abbr'], bool(rp.get('jsx')), exp, text_only=bool(rp.get('text_only')))
     print('emmet.abbreviation.parse(%r, jsx=%r) -> %r\nproperty oracle (written mentions): %s' % (rp['abbr'], rp.get('jsx'), t, why or 'holds'))
     return 1 if why else 0
 
